@@ -184,6 +184,16 @@ var c09JSONEntries = []struct {
 	{"json:Output.NodeJSON", func(d []byte) error { o := &bt.Output{}; return json.Unmarshal(d, o.NodeJSON()) }},
 	{"json:UTXO", func(d []byte) error { var u bt.UTXO; return json.Unmarshal(d, &u) }},
 	{"json:UTXO.NodeJSON", func(d []byte) error { u := &bt.UTXO{}; return json.Unmarshal(d, u.NodeJSON()) }},
+	{"json:FeeQuote", func(d []byte) error {
+		fq := bt.NewFeeQuote()
+		err := json.Unmarshal(d, fq)
+		// a decoded quote is used: every operation on it returns (C18 covers the values)
+		_, _ = fq.Fee(bt.FeeTypeStandard)
+		_, _ = fq.Fee(bt.FeeTypeData)
+		fq.AddQuote(bt.FeeTypeData, &bt.Fee{FeeType: bt.FeeTypeData, MiningFee: bt.FeeUnit{Satoshis: 1, Bytes: 2}, RelayFee: bt.FeeUnit{Satoshis: 1, Bytes: 2}})
+		_, _ = json.Marshal(fq)
+		return err
+	}},
 	{"json:UTXOs.NodeJSON", func(d []byte) error {
 		var us bt.UTXOs
 		if len(d)%3 == 1 {
@@ -712,6 +722,8 @@ func c09ValidDocs(t *refcodec.Tx) map[string][]any {
 		"json:UTXO":            {utxo},
 		"json:UTXO.NodeJSON":   {nutxo},
 		"json:UTXOs.NodeJSON":  {jarr{nutxo, nutxo}, jarr{}},
+		"json:FeeQuote": {jobj{{"standard", jobj{{"miningFee", jobj{{"satoshis", jlit("5")}, {"bytes", jlit("10")}}}, {"relayFee", jobj{{"satoshis", jlit("5")}, {"bytes", jlit("10")}}}}},
+			{"data", jobj{{"miningFee", jobj{{"satoshis", jlit("1")}, {"bytes", jlit("4")}}}, {"relayFee", jobj{{"satoshis", jlit("1")}, {"bytes", jlit("4")}}}}}}, jobj{}},
 	}
 }
 
